@@ -107,8 +107,8 @@ define_ops! {
 
 width_list!();
 
-const W_EDGE_QUICK: &[usize] = &[63, 64, 65, 127, 128, 129, 192, 256, 257, 320, 384, 448, 512];
-const W_EDGE: &[usize] = &[60, 63, 64, 65, 120, 127, 128, 129, 191, 192, 193, 250, 255, 256, 257, 320, 384, 511, 512, 513];
+const W_EDGE_QUICK: &[usize] = &[63, 64, 65, 72, 127, 128, 129, 192, 200, 256, 257, 320, 384, 448, 512];
+const W_EDGE: &[usize] = &[60, 63, 64, 65, 72, 120, 127, 128, 129, 191, 192, 193, 200, 250, 255, 256, 257, 320, 384, 511, 512, 513];
 
 fn u(v: &BigUint, bits: usize) -> V {
     V::U(to_limbs(v, bits))
